@@ -140,19 +140,70 @@ func isArrayKey(v LNumber) bool {
 	return isInteger(v) && v < LNumber(int((^uint(0))>>1)) && v > LNumber(0) && v < LNumber(MaxArrayIndex)
 }
 
+// isDecimalNumeral reports whether s is digits ['.' digits] [('e'|'E') ['+'|'-'] digits] with at least one digit in
+// the mantissa and, if there is an exponent, at least one digit in it.
+func isDecimalNumeral(s string) bool {
+	i, ndigits := 0, 0
+	for ; i < len(s) && '0' <= s[i] && s[i] <= '9'; i++ {
+		ndigits++
+	}
+	if i < len(s) && s[i] == '.' {
+		for i++; i < len(s) && '0' <= s[i] && s[i] <= '9'; i++ {
+			ndigits++
+		}
+	}
+	if ndigits == 0 {
+		return false
+	}
+	if i < len(s) && (s[i] == 'e' || s[i] == 'E') {
+		i++
+		if i < len(s) && (s[i] == '+' || s[i] == '-') {
+			i++
+		}
+		start := i
+		for ; i < len(s) && '0' <= s[i] && s[i] <= '9'; i++ {
+		}
+		if i == start {
+			return false
+		}
+	}
+	return i == len(s)
+}
+
+// parseNumber converts a string to a number as Lua 5.1 does: surrounding white space, an optional sign, then either
+// "0x" followed by hexadecimal digits or a decimal numeral. Nothing else that strconv understands (octal, "0b", "0o",
+// "_" separators, hexadecimal floats, "inf", "nan") is a Lua numeral.
 func parseNumber(number string) (LNumber, error) {
-	var value LNumber
-	number = strings.Trim(number, " \t\n")
-	if v, err := strconv.ParseInt(number, 0, LNumberBit); err != nil {
-		if v2, err2 := strconv.ParseFloat(number, LNumberBit); err2 != nil {
-			return LNumber(0), err2
+	s := strings.Trim(number, " \t\n\v\f\r")
+	neg := false
+	if len(s) > 0 && (s[0] == '+' || s[0] == '-') {
+		neg = s[0] == '-'
+		s = s[1:]
+	}
+	var value float64
+	if len(s) > 2 && s[0] == '0' && (s[1] == 'x' || s[1] == 'X') {
+		for i := 2; i < len(s); i++ {
+			if !('0' <= s[i] && s[i] <= '9' || 'a' <= s[i] && s[i] <= 'f' || 'A' <= s[i] && s[i] <= 'F') {
+				return LNumber(0), &strconv.NumError{Func: "parseNumber", Num: number, Err: strconv.ErrSyntax}
+			}
+		}
+		if v, err := strconv.ParseUint(s[2:], 16, 64); err == nil {
+			value = float64(v)
 		} else {
-			value = LNumber(v2)
+			// more than 64 bits: the nearest float64 (+Inf if out of range)
+			value, _ = strconv.ParseFloat(s+"p0", LNumberBit)
 		}
 	} else {
-		value = LNumber(v)
+		if !isDecimalNumeral(s) {
+			return LNumber(0), &strconv.NumError{Func: "parseNumber", Num: number, Err: strconv.ErrSyntax}
+		}
+		// the only error left is ErrRange, which comes with the value +Inf
+		value, _ = strconv.ParseFloat(s, LNumberBit)
 	}
-	return value, nil
+	if neg {
+		value = -value
+	}
+	return LNumber(value), nil
 }
 
 func popenArgs(arg string) (string, []string) {
